@@ -16,6 +16,8 @@ def tasks(run):
     out += [('dimred', (name, seed, 'logdet4', 1e-2)) for (name, seed) in models.programs(run.seed + 5, 4)]
     # non-default options far apart: tolerance 1e-6 on the objective, regularisation 0.2 of the logdet weights (each must reach its own use)
     out += [('dimred', ('T_gd_ssc', run.seed + i, h, 1e-6, 0.2)) for i in range(2) for h in ('trace', 'logdet2')]
+    # an LMI whose auxiliary solver matrix has a trace that decreases when a Gram entry grows: the trace heuristic weighs the Gram matrix only
+    out += [('dimred', ('T_lmi_trace', v, 'trace')) for v in range(2)]
     # a stated tolerance of exactly zero (float and int) is a tolerance, not an unset option
     out += [('dimred', ('T_gd_ssc', run.seed + 3, h, z)) for h, z in (('trace', 0.0), ('logdet1', 0))]
     # the same through the announced fall-back (requested back-end not installed -> cvxpy): identical to wrapper='cvxpy' with the same options
